@@ -1,6 +1,7 @@
 package main
 
 import (
+	crand "crypto/rand"
 	"errors"
 	"fmt"
 	"io/fs"
@@ -311,4 +312,126 @@ func listDir(d string) []string {
 func contains(xs []string, x string) bool {
 	i := sort.SearchStrings(xs, x)
 	return i < len(xs) && xs[i] == x
+}
+
+// ------------------------------------------------------------------------------------------- area collide
+// REAL name collisions: crypto/rand.Reader (a public variable of the standard library, the only seam in front of
+// xmath/rand's crypto source) is pinned for the duration of one call, so that CreateTemp draws numbers whose names the
+// harness has created beforehand.
+// collide <old> <k> <pieces> <fault> <cbmode>   the first k candidates safe7000, safe7001, … exist (10 bytes each)
+//    -> res=<code> dst=<state> pre=<unchanged>/<k> new=<entries beside dst and the k files> opens=<n.a. in-process: echoed>
+// selfcollide <pieces> <fault> <cbmode>         the destination is the ABSENT file safe123 and every draw is 123
+//    -> res=<code> during=<state of the destination seen by the callback after its last piece | -> dst=<final state>
+type collideArea struct{}
+
+func (collideArea) Gen(r *hx.Rng, n int, _ string, emit func(string)) {
+	b := bufSize()
+	ks := []int{0, 1, 2, 5, 999, 1000, 3, 1000}
+	fts := []string{"none p", "cb:1 p", "panic:0 p", "none s"}
+	for i := 0; i < n; i++ {
+		pcs := hx.Pick(r, []string{"10", strconv.Itoa(b + 1), "1000x70", "-"})
+		if i%5 == 4 {
+			np := len(parsePieces(pcs))
+			ft := hx.Pick(r, []string{"none p", "cb:" + strconv.Itoa(np) + " p", "panic:" + strconv.Itoa(np) + " p"})
+			emit("selfcollide " + pcs + " " + ft)
+			continue
+		}
+		emit(fmt.Sprintf("collide %s %d %s %s", hx.Pick(r, []string{"absent", "file:70000:600", "file:0:644"}), ks[i%len(ks)], pcs,
+			fts[(i/len(ks))%len(fts)]))
+	}
+}
+
+type pinnedReader struct {
+	next func() uint64
+}
+
+func (p *pinnedReader) Read(b []byte) (int, error) {
+	v := p.next()
+	for i := range b { // little endian, as cryptoRand.Intn decodes it
+		b[i] = byte(v >> (8 * uint(i)))
+	}
+	return len(b), nil
+}
+
+func (collideArea) Run(line string) string {
+	f := strings.Fields(line)
+	return withDeadline(func() string {
+		switch {
+		case len(f) == 6 && f[0] == "collide":
+			return collideRun(parseOld(f[1]), atoi(f[2]), parsePieces(f[3]), f[4], f[5])
+		case len(f) == 4 && f[0] == "selfcollide":
+			return selfCollideRun(parsePieces(f[1]), f[2], f[3])
+		}
+		return "bad-op"
+	})
+}
+
+func pinned(next func() uint64, call func() error) (err error) {
+	saved := crand.Reader
+	crand.Reader = &pinnedReader{next: next}
+	defer func() { crand.Reader = saved }()
+	panicked := true
+	defer func() {
+		if panicked {
+			_ = recover()
+			err = errPanicked
+		}
+	}()
+	err = call()
+	panicked = false
+	return err
+}
+
+func cbArgs(fault, cbMode string) (int, string) {
+	cbFail := -1
+	switch {
+	case strings.HasPrefix(fault, "cb:"):
+		cbFail = atoi(fault[3:])
+	case strings.HasPrefix(fault, "panic:"):
+		cbFail = atoi(fault[6:])
+		cbMode += "!"
+	}
+	return cbFail, cbMode
+}
+
+func collideRun(old oldSpec, k int, pieces []int, fault, cbMode string) string {
+	dir, dst := setup(old)
+	defer cleanup(dir)
+	preState := make([]string, k)
+	for i := 0; i < k; i++ {
+		p := filepath.Join(dir, "safe"+strconv.Itoa(7000+i))
+		if err := os.WriteFile(p, genBytes(i, 10, seedOld), 0o600); err != nil {
+			panic(err)
+		}
+		preState[i] = fileState(p)
+	}
+	prev := syscall.Umask(0o22)
+	defer syscall.Umask(prev)
+	cbFail, cbm := cbArgs(fault, cbMode)
+	draw := uint64(7000)
+	werr := pinned(func() uint64 { v := draw; draw++; return v }, func() error {
+		return perform("wf", dst, 0o644, pieces, cbFail, cbm, nil)
+	})
+	same := 0
+	for i := 0; i < k; i++ {
+		if fileState(filepath.Join(dir, "safe"+strconv.Itoa(7000+i))) == preState[i] {
+			same++
+		}
+	}
+	opens := int(draw - 7000)
+	return fmt.Sprintf("res=%s dst=%s pre=%d/%d new=%d opens=%d", resCode(werr), fileState(dst), same, k, len(extras(dir))-k, opens)
+}
+
+func selfCollideRun(pieces []int, fault, cbMode string) string {
+	dir, _ := setup(oldSpec{kind: "absent"})
+	defer cleanup(dir)
+	dst := filepath.Join(dir, "safe123")
+	prev := syscall.Umask(0o22)
+	defer syscall.Umask(prev)
+	cbFail, cbm := cbArgs(fault, cbMode)
+	during := "-"
+	werr := pinned(func() uint64 { return 123 }, func() error {
+		return perform("wf", dst, 0o644, pieces, cbFail, cbm, func(int) { during = fileState(dst) })
+	})
+	return fmt.Sprintf("res=%s during=%s dst=%s", resCode(werr), during, fileState(dst))
 }
